@@ -37,15 +37,3 @@ Proof. intros H. exact (slots_injective_of_distinct cells (k_facets k) (k_nnodes
 Lemma edge_slots_injective_every_cell_type k cells :
   Forall (fun c => NoDup c /\ length c = k_nnodes k) cells -> slots_injective cells (k_edges k).
 Proof. intros H. exact (slots_injective_of_distinct cells (k_edges k) (k_nnodes k) (edges_slots_ok k) H). Qed.
-
-(* the facet-array assumption (H3 of C11_boundary_edges_exact_partial) holds on the slot tables of the two 3-D cell
-   types whose boundary edges the library can compute: hexahedra keep cyclic quadrilateral facets, tetrahedra
-   have triangular facets all of whose vertex pairs are edges *)
-Lemma hex_cyclic_facet_pairs_are_edges : cyclic_pairs_ok hex_facets hex_edges = true.
-Proof. vm_compute. reflexivity. Qed.
-Lemma tet_facet_pairs_are_edges : all_pairs_ok tet_facets tet_edges = true.
-Proof. vm_compute. reflexivity. Qed.
-Lemma quad_bnd_is_cyclic : cyclic_pairs_ok [[0; 1; 2; 3]] hex_bnd = true.   (* RefQuad.facets = the 4 sides in cyclic order *)
-Proof. vm_compute. reflexivity. Qed.
-Lemma tri_bnd_all_pairs : all_pairs_ok [[0; 1; 2]] tet_bnd = true.
-Proof. vm_compute. reflexivity. Qed.
